@@ -1011,3 +1011,208 @@ func orderAxioms(roots []*Term) []*Term {
 		Forall([]*Term{x, y}, And(Not(And(lt, gt)), Implies(Eq(x, y), Not(lt)), Implies(Ne(x, y), Or(lt, gt))), lt),
 	}
 }
+
+// ---------------- opaque predicates ----------------
+//
+// A quantified conjunct of an `opaque` define is replaced by an application F(leaves) of a
+// fresh predicate symbol to the maximal subterms that do not mention the conjunct's own
+// bound variables, together with the definitional axiom
+//     forall p. F(p) = skeleton(p)          (trigger F(p))
+// which is a conservative extension.  Two evaluations of the same define in different heap
+// states share F, so the solver proves preservation by congruence once the leaves are equal
+// and unfolds the body only where it has to.
+
+var opaqueFuns = map[string]string{} // skeleton text -> function name
+var opaqueCount = map[string]int{}
+
+func makeOpaque(name string, t *Term) *Term {
+	if t.Kind == KBuiltin && t.Op == "and" {
+		var out []*Term
+		for _, a := range t.Args {
+			out = append(out, makeOpaque(name, a))
+		}
+		return And(out...)
+	}
+	if t.Kind != KQuant || t.Op != "forall" {
+		return t
+	}
+	// split forall x. (A && B)
+	if b := t.Args[0]; b.Kind == KBuiltin && b.Op == "=>" && len(b.Args) == 2 && b.Args[1].Kind == KBuiltin && b.Args[1].Op == "and" {
+		var out []*Term
+		for _, c := range b.Args[1].Args {
+			out = append(out, makeOpaque(name, TC.mk(KQuant, "forall", SBool, []*Term{Implies(b.Args[0], c)}, t.Bound, t.Pats)))
+		}
+		return And(out...)
+	}
+	inner := map[*Term]bool{}
+	var innerOrder []*Term
+	var collect func(u *Term, seen map[*Term]bool)
+	collect = func(u *Term, seen map[*Term]bool) {
+		if seen[u] {
+			return
+		}
+		seen[u] = true
+		if u.Kind == KQuant {
+			for _, b := range u.Bound {
+				if !inner[b] {
+					inner[b] = true
+					innerOrder = append(innerOrder, b)
+				}
+			}
+			for _, p := range u.Pats {
+				collect(p, seen)
+			}
+		}
+		for _, a := range u.Args {
+			collect(a, seen)
+		}
+	}
+	collect(t, map[*Term]bool{})
+	memo := map[*Term]bool{}
+	var mentionsInner func(u *Term) bool
+	mentionsInner = func(u *Term) bool {
+		if inner[u] {
+			return true
+		}
+		if !u.hasBV {
+			return false
+		}
+		if v, ok := memo[u]; ok {
+			return v
+		}
+		r := false
+		for _, a := range u.Args {
+			if mentionsInner(a) {
+				r = true
+				break
+			}
+		}
+		if !r && u.Kind == KQuant {
+			r = true
+		}
+		memo[u] = r
+		return r
+	}
+	var leaves []*Term
+	sub := map[*Term]*Term{}
+	var find func(u *Term)
+	find = func(u *Term) {
+		if _, done := sub[u]; done {
+			return
+		}
+		if !mentionsInner(u) {
+			if u.IsLit() || (u.Kind == KSym && (strings.HasPrefix(u.Op, "lit@") || u.Op == "$type")) {
+				return
+			}
+			p := TC.mk(KBVar, fmt.Sprintf("$p%d", len(leaves)), u.Sort, nil, nil, nil)
+			sub[u] = p
+			leaves = append(leaves, u)
+			return
+		}
+		for _, a := range u.Args {
+			find(a)
+		}
+		if u.Kind == KQuant {
+			for _, p := range u.Pats {
+				find(p)
+			}
+		}
+	}
+	find(t)
+	if len(leaves) == 0 {
+		return t
+	}
+	for i, b := range innerOrder {
+		sub[b] = TC.mk(KBVar, fmt.Sprintf("$b%d", i), b.Sort, nil, nil, nil)
+	}
+	skel := addAutoPats(substPats(t, sub))
+	var sb strings.Builder
+	printTerm(&sb, skel, map[*Term]string{})
+	key := sb.String()
+	fname, ok := opaqueFuns[key]
+	var params []*Term
+	for _, l := range leaves {
+		params = append(params, sub[l])
+	}
+	if !ok {
+		opaqueCount[name]++
+		fname = fmt.Sprintf("spec.opq.%s.%d", name, opaqueCount[name])
+		opaqueFuns[key] = fname
+		app := App(fname, SBool, params...)
+		ax := TC.mk(KQuant, "forall", SBool, []*Term{Eq(app, skel)}, params, []*Term{app})
+		GlobalAxioms = append(GlobalAxioms, &GlobalAxiom{Name: fname, T: ax, Funs: map[string]bool{fname: true}})
+	}
+	return App(fname, SBool, leaves...)
+}
+
+// substPats is Subst that also rewrites quantifier triggers.
+func substPats(t *Term, m map[*Term]*Term) *Term {
+	memo := map[*Term]*Term{}
+	var rec func(t *Term) *Term
+	rec = func(t *Term) *Term {
+		if r, ok := m[t]; ok {
+			return r
+		}
+		if len(t.Args) == 0 {
+			return t
+		}
+		if r, ok := memo[t]; ok {
+			return r
+		}
+		args := make([]*Term, len(t.Args))
+		for i, a := range t.Args {
+			args[i] = rec(a)
+		}
+		var r *Term
+		if t.Kind == KQuant {
+			pats := make([]*Term, len(t.Pats))
+			for i, p := range t.Pats {
+				pats[i] = rec(p)
+			}
+			bound := make([]*Term, len(t.Bound))
+			for i, b := range t.Bound {
+				bound[i] = b
+				if nb, ok := m[b]; ok {
+					bound[i] = nb
+				}
+			}
+			r = TC.mk(KQuant, t.Op, t.Sort, args, bound, pats)
+		} else {
+			r = rebuild(t, args)
+		}
+		memo[t] = r
+		return r
+	}
+	return rec(t)
+}
+
+// addAutoPats gives trigger-less single-variable universal quantifiers an automatic trigger.
+func addAutoPats(t *Term) *Term {
+	memo := map[*Term]*Term{}
+	var rec func(t *Term) *Term
+	rec = func(t *Term) *Term {
+		if len(t.Args) == 0 {
+			return t
+		}
+		if r, ok := memo[t]; ok {
+			return r
+		}
+		args := make([]*Term, len(t.Args))
+		for i, a := range t.Args {
+			args[i] = rec(a)
+		}
+		var r *Term
+		if t.Kind == KQuant {
+			pats := t.Pats
+			if t.Op == "forall" && len(pats) == 0 && len(t.Bound) == 1 {
+				pats = autoPatterns(t.Bound[0], args[0])
+			}
+			r = TC.mk(KQuant, t.Op, t.Sort, args, t.Bound, pats)
+		} else {
+			r = rebuild(t, args)
+		}
+		memo[t] = r
+		return r
+	}
+	return rec(t)
+}
